@@ -338,4 +338,23 @@ EmitBursts == (xn = 0) => \A pol \in BurstPols \cap Pols, U \in Durs, ms \in {40
                  LET L == (ms * 2) \div (5 * U) IN
                  L < 2 \/ PrintT("BURST " \o pol \o " " \o ToString(U) \o " " \o ToString(L) \o " | " \o Toks(BurstPrefix) \o "| "
                                  \o Toks(BurstGroup(pol, U)) \o "| " \o ToString(BurstReps(pol, L)) \o " | " \o Toks(BurstSuffix(pol, L, U)))
+
+\* TWO sustained bursts separated by a stretch of G received packets (the concealing policies): the earlier one long
+\* (seconds: a network drop), then packets resume, then a second sustained loss.  Closed form - prefix, group x L1,
+\* D(5+L1) .. D(5+L1+G-1), group x L2, D(5+L1+G+L2) - proved equal to FullSchedule for short ones (Burst2FormOK),
+\* printed for the long ones (the replay side expands "first middle packet" + G into the run of D calls)
+Burst2Pols == {"PW", "PSa", "PSc"}
+RunD(first, n) == [j \in 1..n |-> CallD(first + j - 1)]
+Burst2Form(pol, U, L1, G, L2) == BurstPrefix \o RepSeq(BurstGroup(pol, U), L1) \o RunD(5 + L1, G)
+                                   \o RepSeq(BurstGroup(pol, U), L2) \o <<CallD(5 + L1 + G + L2)>>
+Burst2FormOK == \A pol \in Burst2Pols \cap Pols, U \in Durs, L1 \in 2..4, G \in 1..3, L2 \in 2..3 :
+                  Burst2Form(pol, U, L1, G, L2)
+                    = FullSchedule(pol, Five \o [j \in 1..L1 |-> TRUE] \o [j \in 1..G |-> FALSE] \o [j \in 1..L2 |-> TRUE] \o <<FALSE>>, 0, U)
+EmitBursts2 == (xn = 0) => \A pol \in Burst2Pols \cap Pols, U \in Durs, ms1 \in {3000, 10000, 26000}, msg \in {500, 1000, 2500}, ms2 \in {1500, 3000} :
+                 LET L1 == (ms1 * 2) \div (5 * U)
+                     G  == (msg * 2) \div (5 * U)
+                     L2 == (ms2 * 2) \div (5 * U) IN
+                 L1 < 2 \/ G < 1 \/ L2 < 2 \/
+                 PrintT("BURST2 " \o pol \o " " \o ToString(U) \o " " \o ToString(L1) \o " " \o ToString(G) \o " " \o ToString(L2) \o " | "
+                        \o Toks(BurstPrefix) \o "| " \o Toks(BurstGroup(pol, U)) \o "| " \o Toks(<<CallD(5 + L1)>>) \o "| " \o Toks(<<CallD(5 + L1 + G + L2)>>))
 =============================================================================
